@@ -15,6 +15,7 @@ import (
 	"sort"
 	"strings"
 	"sync"
+	"syscall"
 	"time"
 )
 
@@ -558,7 +559,17 @@ func firstLine(s string) string {
 	return ""
 }
 
+// decoyEnv: the process environment of every run of gotree code (in-process and fresh processes) holds unusual values for
+// the variables programs commonly consult, so that a default taken from the environment differs from the documented one.
+var decoyEnv = []string{"COLUMNS=97", "LINES=43", "TERM=dumb", "NO_COLOR=1", "GOTREE_VERIF_ENV=1"}
+
 func main() {
+	if os.Getenv("GOTREE_VERIF_ENV") == "" {
+		// package initialisation (cobra option registration) has already happened: start again in the decoy environment
+		if self, err := os.Executable(); err == nil {
+			syscall.Exec(self, os.Args, append(os.Environ(), decoyEnv...))
+		}
+	}
 	var (
 		worker = flag.Bool("worker", false, "worker mode")
 		prop   = flag.String("prop", "", "property id")
